@@ -8,26 +8,35 @@ SPEC = {
     "requires": "From AG Require Import GetGuard.",
     "def_type": "document",
     "streams": [
-        {"kind": "CASE", "type": "(integ * document * option name * gresult)",
-         "eval": "fun c => let '(i, d, n, r) := c in check_case i d n r", "per_shard": 400},
+        {"kind": "CASE", "type": "(integ * bytes * option document * nametab * dreq * gresult)",
+         "eval": "fun c => let '(i, raw, d, t, dd, r) := c in check_case i raw d t dd r", "per_shard": 250},
     ],
     "classes": {1: "get-executes-mutation"},
     "n_quick": 200, "n_thorough": 5000,
     "level": "proof",
-    "what_violation": "a mutation sent over HTTP GET is executed / GET handling differs from the model",
-    "rule": ("generated GET query strings (single anonymous and named operations, documents mixing 2-4 named query and mutation operations "
-             "selected by operation name under both wire keys, selected wrongly or not at all, with and without variables) decoded and executed "
-             "exactly as each integration's GET branch does it: async_graphql::http::parse_query_string + Schema::execute for axum, actix-web, "
-             "poem and warp, Request::new(query).operation_name(operationName).variables(..) + Schema::execute for rocket (GET always yields a "
-             "single request, never a batch). EXECUTED: decoder + executor of the library. MODELLED FROM SOURCE TEXT (re-read on every run by "
-             "tools/factsgen/getguard.py): that each integration's GET branch is this chain and whether an operation-type test lies on it; the "
-             "frameworks' routing and rocket's form parser are not executed. distinct by (integration, query string); non-trivial = a resolver ran"),
+    "what_violation": "a mutation sent over HTTP GET is executed where the executor's operation selection answers with an error / GET decoding or handling differs from the model",
+    "rule": ("generated RAW GET query strings: documents with a single named or anonymous mutation or query, 2-4 named query and mutation operations, "
+             "batch shapes (JSON array as query, repeated query parameter, bare JSON array); the operation name absent / empty (`operationName=`, key "
+             "without '=') / blank (+, %20, %09, %0A) / non-matching (other name, wrong case, name plus space, null, non-ASCII) / matching / sent twice "
+             "(same key, rename and alias key), under both wire keys and percent-encoded keys, values in five urlencoded spellings (form, %20, every byte "
+             "%xx, minimal, mixed), with variables, extensions, unknown parameters, empty pieces, shuffled order; decoded and executed exactly as each "
+             "integration's GET branch does it: async_graphql::http::parse_query_string + Schema::execute for axum, actix-web, poem and warp, "
+             "Request::new(query).operation_name(operationName).variables(..) + Schema::execute for rocket (GET always yields a single request, never a "
+             "batch). The Coq model decodes the raw bytes itself (pairs, percent-decoding, one slot per field, duplicate = error, operation name "
+             "VERBATIM: Some \"\" stays Some \"\") and selects the operation as prepare_request does (single-operation shortcut only for an absent name); "
+             "compared with the library: the decoded query and operation name byte for byte, error / resolver runs. EXECUTED: decoder + executor of the "
+             "library. MODELLED FROM SOURCE TEXT (re-read on every run by tools/factsgen/getguard.py): that each integration's GET branch is this chain, "
+             "whether an operation-type test lies on it, the wire keys of the decoder's fields and that the decoded operation name goes into the Request "
+             "unchanged; the frameworks' routing and rocket's form parser are not executed. distinct by (integration, query string); non-trivial = a "
+             "resolver ran or the document holds a mutation operation"),
     "trusted": ["tools/factsgen/getguard.py (GET branches of the five integrations -> GetGuardGen.v: decoder, guard flags)",
                 "the web frameworks' own extraction of the raw query string; rocket's FromForm derive",
-                "differential agreement of GetGuard.v (operation choice of prepare_request, mutation execution) with the library on this run's cases"],
+                "differential agreement of GetGuard.v (query-string decoding, operation choice of prepare_request, mutation execution) with the library on this run's cases",
+                "the GraphQL parser (the document handed to the model is the real parser's output for the query the library decoded); generated documents are valid for the harness schema, generated variables / extensions are valid JSON objects, decoded values are valid UTF-8"],
     "assumptions": [
         "an integration's GET branch is the chain read from its source text: decoder -> Request -> Executor::execute/execute_batch",
         "an operation-type test, once present on that path, rejects every request whose selected operation is a mutation (what `guarded` means in the model)",
+        "known class get-executes-mutation = inputs on which the model itself selects and executes a mutation operation (name absent and single operation, or name spelled exactly like a named mutation); theorem C35_known_sound; everything else (empty / blank / non-matching name, duplicate parameters, syntax errors) is outside it, a mutation resolver running there is verdict 4 (C35_violation_verdict)",
     ],
 }
 
@@ -37,8 +46,11 @@ MANIFEST = {
     "text": ("Per integration, the GET branch is re-extracted from the crate's source on every run and translated into a Coq fact: which decoder it "
              "calls and whether an operation-type test lies between it and the executor. Coq theorems, for any value of these facts: with such a test "
              "no mutation resolver runs for any request; without it every request whose selected operation is a mutation runs its resolvers "
-             "(refutation for each of the five integrations today: recorded finding). The executor side of the model (operation choice by name, "
-             "mutation execution) is tied to the library by decoding and executing generated GET query strings exactly as the branches do."),
+             "(refutation for each of the five integrations today: recorded finding). The decoder is modelled on the raw query string and proved to "
+             "carry the operation name verbatim (an empty `operationName=` stays Some \"\"), the executor's selection is proved to take the single-operation "
+             "shortcut only for an absent name and never to select anything for an empty or unspelled name; the known class is proved to contain only "
+             "inputs where the model itself runs the mutation. Decoder and executor side of the model are tied to the library by decoding and executing "
+             "generated raw GET query strings exactly as the branches do."),
     "note": ("thin by design: the logic owned by the repository on this path is small; trusted: Coq kernel, the source-text extraction, "
              "the frameworks' query-string extraction (not executed), sampled agreement model vs code; no axioms"),
 }
